@@ -23,6 +23,8 @@ def owner(mut, reason):
         return "C01"
     if reason in ("unspent", "duplicate-ids"):
         return "C02"
+    if mut.startswith("arb-"):
+        mut = mut[4:]
     if reason == "invalid-accepted":
         if mut in COIN_MUTS:
             return "C01"
@@ -74,6 +76,16 @@ def run(res, prop, tier, seed, work, replay=None):
     es = vlib.read_ndjson(edges)
     if not es:
         raise Infra("no edges recorded")
+    # second source of edges: the pool histories (blocks made by a real arbitrating publisher from its pool, offered to it and to
+    # the follower, each preceded by the same block carrying one more, invalid, transaction)
+    out2 = vlib.fresh_dir(os.path.join(work, "rec2"))
+    env2 = dict(os.environ, VERIF_OUT=out2, VERIF_SEED=str(seed), VERIF_HISTORIES=str(max(3, nh // 3)), VERIF_BLOCKS=str(max(5, nb // 2)))
+    p2 = vlib.run([vbin, "-test.run", "TestVerifPool$", "-test.count=1", "-test.timeout", "3000s"], env=env2, timeout=3100, check=False)
+    if p2.returncode != 0:
+        raise Infra("pool recorder failed:\n" + "\n".join(l for l in (p2.stdout or "").splitlines() if "INFO" not in l and "DEBUG" not in l and "WARN" not in l)[-2000:])
+    for e in vlib.read_ndjson(os.path.join(out2, "edges.ndjson")):
+        e["hist"] += 100000
+        es.append(e)
     mism, states, cmd = validate_edges(work, es)
     dead = 0
     for idx, mut, reason in mism:
